@@ -14,14 +14,24 @@ from pycoin.satoshi import checksigops
 MANIFEST = {
     "text": "Lean theorems over the model of the commitment (the temporary transaction of _signature_hash, the BIP143 message) and of the validation "
             "entry points: two legacy preimages are equal iff the committed projections (the blanked transaction) are equal (unique decoding of the wire "
-            "format), the BIP143 messages are equal iff their ten items are, the verdict of is_solution_ok depends only on the input's context and on the "
-            "answers of the sighash closures, unknown spent output => False, the per-call sighash cache is transparent, and tampering with a committed field "
-            "changes the digest/fails verification under explicit collision-resistance/unforgeability hypotheses. Tied to the code by histories: sign with "
-            "pycoin (P2PKH, P2PK, bare/P2SH/P2WSH multisig, P2WPKH, P2SH-P2WPKH; BTC/LTC/GRS/BCH/BTG; six standard hash types), then sequences of "
-            "single-field mutations interleaved with is_solution_ok/bad_solution_count on the same object and on a fresh parse; the implementation's "
-            "verdicts must equal what the hash types dictate (model) and an independent reference, and each other.",
+            "format; every script code, complete pushes or not) and, read back field by field, iff the listed fields are (legacyFields: version, lock "
+            "time, stripped script code, outpoints and sequences of the kept inputs with the other sequences read as zero under NONE/SINGLE and the "
+            "signed input alone under ANYONECANPAY, all / none / the one output at the input's position) for every hash-type word; SIGHASH_SINGLE "
+            "without a matching output commits nothing (constant 1<<248 whatever the transaction); the BIP143 / fork-id messages are equal iff their "
+            "ten items are and, the part hashes standing for the lists they digest (explicit hypotheses), iff the fields143 are (incl. the spent "
+            "amount; SINGLE without a matching output: zero hashOutputs, nothing of the outputs); the fork id folded into bits 8.. changes no flag; the "
+            "serialiser of the legacy message is injective in (transaction, hash type); the closures of check_solution read the state only through "
+            "the committed bytes, so equal committed bytes + equal input context => equal verdict of is_solution_ok (frame direction), with the "
+            "other inputs' unlocking data (all hash types) and the outputs under SIGHASH_NONE as proved instances; unknown spent output => False; the "
+            "per-call sighash cache is transparent; every answer of any history of validations and in-place changes on one object equals the fresh "
+            "computation; tampering with a committed field changes the digest/fails verification under explicit collision-resistance/unforgeability "
+            "hypotheses. Tied to the code by histories: sign with pycoin (P2PKH, P2PK, bare/P2SH/P2WSH multisig, P2WPKH, P2SH-P2WPKH; "
+            "BTC/LTC/GRS/BCH/BTG; six standard hash types), then sequences of single-field mutations interleaved with "
+            "is_solution_ok/bad_solution_count on the same object and on a fresh parse; the implementation's verdicts must equal what the hash types "
+            "dictate (model) and an independent reference, and each other.",
     "note": "The script interpreter is a parameter of the model (C03 covers it). 'Committed change => invalid' rests on SHA-256 collision resistance and "
-            "ECDSA unforgeability, stated as hypotheses of the theorem and observed on every generated case.",
+            "ECDSA unforgeability, stated as hypotheses of C06_tamper_fails_partial (and, for reading the BIP143 part hashes back as lists, of "
+            "C06_committed_fields_bip143) and observed on every generated case.",
     "technique": "Lean 4 proof (unique decoding / congruence over the sighash model) + differential histories on the real objects + reference oracle",
 }
 RULE = ("ops c06_from_db / c06_set_unspents / c06_parse_unspents (ways the unspents get populated: databases lacking the tx, with too few outputs, "
